@@ -1936,7 +1936,8 @@ func (p *Parser) parseConditionVarOperator(expression *ast.OperatorExpression) e
 			} else if p.curToken.Type == token.RPAREN {
 				if numOpenParens == 0 {
 					p.nextToken()
-					if len(parts) > 1 {
+					// Parenthesize multi-token values, including a constant that expands to several tokens.
+					if len(parts) > 1 || (len(parts) == 1 && strings.Contains(parts[0], " ")) {
 						parts = append(parts, ")")
 						parts = append([]string{"("}, parts...)
 					}
